@@ -36,6 +36,9 @@ type Env struct {
 	err    *error
 	fnName string
 	onHeap func(term string) // called for every heap bundle a clause mentions
+	fuel   string            // fuel term used for recursive ghost functions ("" = default 2 levels)
+	usedFuel *bool
+	assume bool              // the clause is being assumed: quantified formulas generalise over fuel
 }
 
 func (e *Env) fail(format string, a ...interface{}) TTerm {
@@ -199,8 +202,23 @@ func (e *Env) Tr(x *Expr) TTerm {
 			bs = append(bs, "("+nm+" "+srt+")")
 		}
 		ne := e.withVars(ex)
+		used := false
+		if e.fuel == "" && e.assume {
+			ne.fuel = "q_ly"
+			ne.usedFuel = &used
+		}
 		body := ne.Tr(x.Args[0])
-		if len(x.Trig) > 0 {
+		var trigs []string
+		for _, t := range x.Trig {
+			trigs = append(trigs, ne.Tr(t).S)
+		}
+		if used {
+			bs = append(bs, "(q_ly Fuel)")
+		}
+		if len(trigs) > 0 {
+			return TTerm{S: "(" + x.Op + " (" + strings.Join(bs, " ") + ") (! " + body.S + " :pattern (" + strings.Join(trigs, " ") + ")))", Sort: "Bool"}
+		}
+		if false {
 			var ts []string
 			for _, t := range x.Trig {
 				ts = append(ts, ne.Tr(t).S)
@@ -676,6 +694,16 @@ func (e *Env) call(x *Expr) TTerm {
 		if len(as) == 0 {
 			return TTerm{S: g.Name, Sort: sortFromName(g.Sort)}
 		}
+		if g.Body != nil && exprMentions(g.Body, g.Name) {
+			f := "(LS (LS LZ))"
+			if e.fuel != "" {
+				f = e.fuel
+				if e.usedFuel != nil {
+					*e.usedFuel = true
+				}
+			}
+			return TTerm{S: "(" + g.Name + " " + f + " " + strings.Join(as, " ") + ")", Sort: sortFromName(g.Sort)}
+		}
 		return TTerm{S: "(" + g.Name + " " + strings.Join(as, " ") + ")", Sort: sortFromName(g.Sort)}
 	}
 	if al, ok := aliases[x.Name]; ok {
@@ -846,7 +874,7 @@ func (g *Gen) lookupNamed(q string) types.Type {
 // EmitGhosts writes ghost function declarations / definitions and axioms.
 func (g *Gen) EmitGhosts(b *strings.Builder) error {
 	var err error
-	env := &Env{g: g, vars: map[string]TTerm{}, err: &err, wm0: "0",
+	env := &Env{g: g, vars: map[string]TTerm{}, err: &err, wm0: "0", assume: true,
 		famOf:  func(f string) string { return f + "!0" },
 		famOld: func(f string) string { return f + "!0" }}
 	for _, l := range g.Spec.RawSMT {
@@ -869,9 +897,13 @@ func (g *Gen) EmitGhosts(b *strings.Builder) error {
 		}
 		recursive := exprMentions(gf.Body, gf.Name)
 		if recursive {
-			fmt.Fprintf(b, "(declare-fun %s (%s) %s)\n", gf.Name, strings.Join(ss, " "), rs)
+			fmt.Fprintf(b, "(declare-fun %s (Fuel %s) %s)\n", gf.Name, strings.Join(ss, " "), rs)
 		}
-		body := env.withVars(vars).Tr(gf.Body)
+		benv := env.withVars(vars)
+		if recursive {
+			benv.fuel = "g_ly"
+		}
+		body := benv.Tr(gf.Body)
 		if err != nil {
 			return fmt.Errorf("ghost %s (%s): %v", gf.Name, gf.Pos, err)
 		}
@@ -889,8 +921,11 @@ func (g *Gen) EmitGhosts(b *strings.Builder) error {
 		} else if hasHeap {
 			// defining equation is a heap-schematic axiom, added by SynthesizeHeapGhostAxioms
 		} else {
-			app := "(" + gf.Name + " " + strings.Join(as, " ") + ")"
-			fmt.Fprintf(b, "(assert (forall (%s) (! (= %s %s) :pattern (%s))))\n", strings.Join(ps, " "), app, body.S, app)
+			// fuel encoding: f(LS ly, x) unfolds to the body over f(ly, ..); all fuels denote the same value
+			app := "(" + gf.Name + " (LS g_ly) " + strings.Join(as, " ") + ")"
+			app0 := "(" + gf.Name + " g_ly " + strings.Join(as, " ") + ")"
+			fmt.Fprintf(b, "(assert (forall ((g_ly Fuel) %s) (! (= %s %s) :pattern (%s))))\n", strings.Join(ps, " "), app, body.S, app)
+			fmt.Fprintf(b, "(assert (forall ((g_ly Fuel) %s) (! (= %s %s) :pattern (%s))))\n", strings.Join(ps, " "), app, app0, app)
 		}
 	}
 	for _, ax := range g.Spec.Axioms {
@@ -943,6 +978,31 @@ func (g *Gen) InstHeapAxioms(env *Env, heap string) []string {
 		if hv == "" {
 			continue
 		}
+		if ax.DefOf != nil {
+			gf := ax.DefOf
+			var ps, as []string
+			vars := map[string]TTerm{}
+			for _, p := range gf.Params {
+				srt := sortFromName(p[1])
+				if p[0] == hv {
+					vars[p[0]] = TTerm{S: heap, Sort: "Heap"}
+					as = append(as, heap)
+					continue
+				}
+				ps = append(ps, "(q_"+p[0]+" "+srt+")")
+				as = append(as, "q_"+p[0])
+				vars[p[0]] = TTerm{S: "q_" + p[0], Sort: srt}
+			}
+			ne := env.withVars(vars)
+			ne.onHeap = nil
+			ne.fuel = "q_ly"
+			body := ne.Tr(gf.Body)
+			app := "(" + gf.Name + " (LS q_ly) " + strings.Join(as, " ") + ")"
+			app0 := "(" + gf.Name + " q_ly " + strings.Join(as, " ") + ")"
+			out = append(out, fmt.Sprintf("(assert (forall ((q_ly Fuel) %s) (! (= %s %s) :pattern (%s)))) ; definition of %s at heap", strings.Join(ps, " "), app, body.S, app, gf.Name))
+			out = append(out, fmt.Sprintf("(assert (forall ((q_ly Fuel) %s) (! (= %s %s) :pattern (%s)))) ; fuel synonym of %s", strings.Join(ps, " "), app, app0, app, gf.Name))
+			continue
+		}
 		cp := *ax.E
 		cp.Bound = nil
 		for _, b := range ax.E.Bound {
@@ -952,6 +1012,7 @@ func (g *Gen) InstHeapAxioms(env *Env, heap string) []string {
 		}
 		ne := env.withVars(map[string]TTerm{hv: {S: heap, Sort: "Heap"}})
 		ne.onHeap = nil
+		ne.assume = true
 		var t TTerm
 		if len(cp.Bound) == 0 {
 			t = ne.Tr(ax.E.Args[0])
@@ -1000,7 +1061,7 @@ func (sp *Spec) SynthesizeHeapGhostAxioms() {
 			bound = append(bound, [2]string{p[0], p[1]})
 		}
 		app := &Expr{Op: "call", Name: gf.Name, Args: args}
-		sp.Axioms = append(sp.Axioms, &Clause{Kind: "axiom", Pos: gf.Pos, Text: "definition of " + gf.Name,
+		sp.Axioms = append(sp.Axioms, &Clause{Kind: "axiom", Pos: gf.Pos, Text: "definition of " + gf.Name, DefOf: gf,
 			E: &Expr{Op: "forall", Bound: bound, Trig: []*Expr{app}, Args: []*Expr{{Op: "==", Args: []*Expr{app, gf.Body}}}}})
 	}
 }
